@@ -13,6 +13,11 @@ na_file = os.path.join(HERE, "tools", "not_applicable.json")
 na_reasons = json.load(open(na_file)) if os.path.exists(na_file) else {}
 claims_file = os.path.join(HERE, "tools", "claims.json")
 claims = json.load(open(claims_file))
+cd = os.path.join(HERE, "tools", "claims.d")
+if os.path.isdir(cd):
+    for fn in sorted(os.listdir(cd)):
+        if fn.endswith(".json"):
+            claims[fn[:-5].upper()] = json.load(open(os.path.join(cd, fn)))
 
 checks, na = [], []
 for p in props:
